@@ -1,0 +1,81 @@
+//go:build verif
+
+// Contracts for package losses, read by /verif/qv (comment-only file).
+
+package losses
+
+//@ define clipv(x, l, u) := fmaxr(l, fminr(x, u))
+//@ define lossIn1(yp, yt) := yp != nil && yt != nil && rank(yp) == 1 && rank(yt) == 1 && dim(yp, 0) == dim(yt, 0)
+//@ define lossIn2(yp, yt) := yp != nil && yt != nil && rank(yp) == 2 && rank(yt) == 2 && dim(yp, 0) == dim(yt, 0) && dim(yp, 1) == dim(yt, 1)
+//@ define libT(x) := imp(x != nil, tinv(x) && preexisting(x))
+
+//@ func NewMSE
+//@   public
+//@   returns fresh
+//@   ensures c != nil
+//@ func NewBCE
+//@   public
+//@   returns fresh
+//@   ensures c != nil
+//@ func NewCE
+//@   public
+//@   returns fresh
+//@   ensures c != nil
+
+//@ func MSE.validateInputs
+//@   ensures[C09,C12] iff(err == nil, lossIn1(yp, yt)) && imp(err == nil, sameShape(yp, yt))
+//@ func BCE.validateInputs
+//@   ensures[C09,C12] iff(err == nil, lossIn1(yp, yt)) && imp(err == nil, sameShape(yp, yt))
+//@ func CE.validateInputs
+//@   ensures[C09,C12] iff(err == nil, lossIn2(yp, yt)) && imp(err == nil, sameShape(yp, yt))
+
+// clip(x, l, u) = max(l, min(x, u)) element-wise, same shape, never an error
+//@ func clip
+//@   wants same
+//@   requires tinv(x)
+//@   ensures[C12] err == nil && y != nil && tinv(y) && sameShape(y, x) && forallJ(J, imp(inb(y, J), el(y, J) == clipv(el(x, J), l, u)))
+//@   ensures[C08] dirtyT(y) == dirtyT(x) && trkT(y) == (!dirtyT(x) && trkT(x))
+
+// C12 (MSE): the result is the mean along the batch of the squared differences
+//@ func MSE.Compute
+//@   wants same
+//@   public
+//@   witness d = d
+//@   requires libT(yp) && libT(yt)
+//@   ensures[C09,C12] iff(err == nil, lossIn1(yp, yt)) && imp(err != nil, l == nil)
+//@   ensures[C12] imp(err == nil, l != nil && rank(l) == 0)
+//@   ensures[C12] imp(err == nil, existsT(d, sameShape(d, yp) && forallJ(J, imp(inb(d, J), el(d, J) == (el(yt, J) - el(yp, J)) * (el(yt, J) - el(yp, J))))
+//@                && forallJ(K, imp(inb(l, K), el(l, K) == fsum(d, 0, K) / real(dim(yp, 0))))))
+
+// C12 (BCE): mean along the batch of -(t*log(p) + (1-t)*log(1-p)) over clipped inputs; every log argument is >= 1e-12
+//@ func BCE.Compute
+//@   wants same
+//@   public
+//@   witness d = l
+//@   have sameShape(l, old(yp)) && sameShape(yt, old(yp)) && sameShape(yp, old(yp)) && sameShape(s1, old(yp)) && sameShape(s2, old(yp))
+//@   have forallJ(J, imp(inb(l, J), el(yt, J) == clipv(el(old(yt), J), 0, 1) && el(yp, J) == clipv(el(old(yp), J), 1e-12, 1 - 1e-12)))
+//@   have forallJ(J, imp(inb(l, J), el(s1, J) == el(yt, J) * log(el(yp, J))))
+//@   have forallJ(J, imp(inb(l, J), el(s2, J) == (1 - el(yt, J)) * log(1 - el(yp, J))))
+//@   have forallJ(J, imp(inb(l, J), el(l, J) == 0 - (el(s1, J) + el(s2, J))))
+//@   requires libT(yp) && libT(yt)
+//@   ensures[C09,C12] iff(err == nil, lossIn1(yp, yt)) && imp(err != nil, l == nil)
+//@   ensures[C12] imp(err == nil, l != nil && rank(l) == 0)
+//@   ensures[C12] imp(err == nil, existsT(d, sameShape(d, yp) && forallJ(J, imp(inb(d, J), el(d, J) == 0 - (clipv(el(yt, J), 0, 1) * log(clipv(el(yp, J), 1e-12, 1 - 1e-12))
+//@                + (1 - clipv(el(yt, J), 0, 1)) * log(1 - clipv(el(yp, J), 1e-12, 1 - 1e-12)))))
+//@                && forallJ(K, imp(inb(l, K), el(l, K) == fsum(d, 0, K) / real(dim(yp, 0))))))
+
+// C12 (CE): negated batch mean of the per-row sum of t*log(p) over clipped inputs
+//@ func CE.Compute
+//@   wants same
+//@   public
+//@   witness d = s
+//@   witness r = l
+//@   have sameShape(s, old(yp)) && sameShape(yt, old(yp)) && sameShape(yp, old(yp))
+//@   have forallJ(J, imp(inb(s, J), el(s, J) == el(yt, J) * log(el(yp, J))))
+//@   have forallJ(J, imp(inb(s, J), el(yt, J) == clipv(el(old(yt), J), 0, 1) && el(yp, J) == clipv(el(old(yp), J), 1e-12, 1 - 1e-12)))
+//@   requires libT(yp) && libT(yt)
+//@   ensures[C09,C12] iff(err == nil, lossIn2(yp, yt)) && imp(err != nil, l == nil)
+//@   ensures[C12] imp(err == nil, l != nil && rank(l) == 0)
+//@   ensures[C12] imp(err == nil, existsT(d, sameShape(d, yp) && forallJ(J, imp(inb(d, J), el(d, J) == clipv(el(yt, J), 0, 1) * log(clipv(el(yp, J), 1e-12, 1 - 1e-12))))
+//@                && existsT(r, rank(r) == 1 && dim(r, 0) == dim(yp, 0) && forallJ(K, imp(inb(r, K), el(r, K) == 0 - fsum(d, 1, K)))
+//@                && forallJ(K, imp(inb(l, K), el(l, K) == fsum(r, 0, K) / real(dim(yp, 0)))))))
